@@ -19,7 +19,7 @@ CONSTANTS
   Serialized = FALSE
   DirectAPI = FALSE
   MaxLen = 200
-  Wanted = {"full", "overshootround", "inset"}
+  Wanted = {"full", "overshootround", "inset", "x_hardLimit", "x_roundBelow"}
 CHECK_DEADLOCK FALSE
 VIEW state
 ACTION_CONSTRAINT CoarseSchedule
